@@ -9,9 +9,11 @@ import (
 	"strings"
 )
 
-const maxInstPerHyp = 64
+const maxInstPerHyp = 160
 
-func skolemize(goal *Term, sks *[]*Term) *Term {
+// skolemize strips universal quantifiers from the goal (introducing constants) and moves
+// antecedents of implications into *hyps.
+func skolemize(goal *Term, sks *[]*Term, hyps *[]*Term) *Term {
 	switch {
 	case goal.Kind == KQuant && goal.Op == "forall":
 		m := map[string]*Term{}
@@ -20,7 +22,7 @@ func skolemize(goal *Term, sks *[]*Term) *Term {
 			m[b.Op] = sk
 			*sks = append(*sks, sk)
 		}
-		return skolemize(Subst(goal.Args[0], m), sks)
+		return skolemize(Subst(goal.Args[0], m), sks, hyps)
 	case goal.Kind == KApp && goal.Op == "not" && goal.Args[0].Kind == KQuant && goal.Args[0].Op == "exists":
 		ex := goal.Args[0]
 		m := map[string]*Term{}
@@ -33,11 +35,15 @@ func skolemize(goal *Term, sks *[]*Term) *Term {
 	case goal.Kind == KApp && goal.Op == "and":
 		var cs []*Term
 		for _, a := range goal.Args {
-			cs = append(cs, skolemize(a, sks))
+			// antecedents found below a conjunction must stay local to their conjunct
+			var local []*Term
+			c := skolemize(a, sks, &local)
+			cs = append(cs, Implies(And(local...), c))
 		}
 		return And(cs...)
 	case goal.Kind == KApp && goal.Op == "=>":
-		return Implies(goal.Args[0], skolemize(goal.Args[1], sks))
+		*hyps = append(*hyps, goal.Args[0])
+		return skolemize(goal.Args[1], sks, hyps)
 	}
 	return goal
 }
@@ -188,13 +194,42 @@ func prepareQuery(q *Query) {
 		return
 	}
 	var sks []*Term
-	q.Goal = skolemize(q.Goal, &sks)
+	var moved []*Term
+	q.Goal = skolemize(q.Goal, &sks, &moved)
+	for _, h := range moved {
+		// split conjunctions so that each quantified conjunct can be instantiated
+		if h.Kind == KApp && h.Op == "and" {
+			q.Hyps = append(q.Hyps, h.Args...)
+		} else {
+			q.Hyps = append(q.Hyps, h)
+		}
+	}
 	cands := map[Sort][]*Term{}
 	for _, sk := range sks {
 		cands[sk.Sort] = append(cands[sk.Sort], sk)
 		if sk.Sort == SInt {
 			cands[SInt] = append(cands[SInt], Add(sk, IntLit(1)), Sub(sk, IntLit(1)))
 		}
+	}
+	// bounds of quantifier ranges in the hypotheses are further candidates (t and t-1)
+	seenC := map[string]bool{}
+	for _, c := range cands[SInt] {
+		seenC[c.String()] = true
+	}
+	var bounds []*Term
+	for _, h := range q.Hyps {
+		collectBounds(h, &bounds)
+	}
+	for _, b := range bounds {
+		for _, c := range []*Term{b, Sub(b, IntLit(1))} {
+			if len(cands[SInt]) < 14 && !seenC[c.String()] {
+				seenC[c.String()] = true
+				cands[SInt] = append(cands[SInt], c)
+			}
+		}
+	}
+	if len(sks) == 0 {
+		cands = map[Sort][]*Term{}
 	}
 	var inst []*Term
 	for round := 0; round < 3; round++ {
@@ -234,4 +269,31 @@ func prepareQuery(q *Query) {
 		inst = next
 	}
 	q.Hyps = append(q.Hyps, inst...)
+}
+
+// collectBounds finds ground terms that bound a quantified variable from above: (< q t), (<= q t).
+func collectBounds(t *Term, out *[]*Term) {
+	switch t.Kind {
+	case KQuant:
+		collectBoundsIn(t.Args[0], out)
+	case KApp:
+		for _, a := range t.Args {
+			collectBounds(a, out)
+		}
+	}
+}
+
+func collectBoundsIn(t *Term, out *[]*Term) {
+	if t.Kind == KApp {
+		if (t.Op == "<" || t.Op == "<=") && len(t.Args) == 2 && t.Args[0].Kind == KBound && !mentionsBound(t.Args[1], nil) {
+			if t.Args[1].Kind != KLit {
+				*out = append(*out, t.Args[1])
+			}
+		}
+		for _, a := range t.Args {
+			collectBoundsIn(a, out)
+		}
+	} else if t.Kind == KQuant {
+		collectBoundsIn(t.Args[0], out)
+	}
 }
